@@ -18,10 +18,13 @@ keeps every well-formed equation; markers are restored in descending index order
 (repair 0ff0759).
 Round 5 (hunt): replace_variables substitutes whole identifiers only, judged on
 the parsed regular expression (repair a6b299c).
+Round 6: numeric text rewrites written as regular expressions are anchored on
+the left (judged on the parsed pattern).
 NOT decided: everything that depends on sympy and on the sufficiency of random
 test points - the core of the property.
 """
 import ast
+import re
 
 from ..core import rule
 from ..srcmodel import AnalysisError, walk_no_nested, unparse, norm_stmt
@@ -206,7 +209,7 @@ def _num(text):
         return None
 
 
-@rule('C12.e', min_instances=10)
+@rule('C12.e', min_instances=1)
 def numeric_text_rewrites_preserve_values(ctx):
     """every textual .replace() of a numeric literal applied to equation text (the sympy 0.0 work-arounds) maps a number to the same number and is anchored at a token boundary, so it cannot rewrite the inside of a longer literal"""
     n = 0
@@ -232,7 +235,42 @@ def numeric_text_rewrites_preserve_values(ctx):
                     ctx.check(same and anchored, '%s#replace[%r]' % (q, o), '%r -> %r: same number, anchored on the left' % (o, w),
                               'the text rewrite %r -> %r %s' % (o, w, 'changes the number' if not same else
                                                                  'is not anchored at a token boundary: it also rewrites the inside of longer literals (10.05 -> 1.05)'), f, c)
-    ctx.need(n >= 10, 'expected >= 10 numeric text rewrites, found %d' % n)
+    # the same rewrites written as regular-expression substitutions: the pattern has to be anchored on the left (a literal space, a word
+    # boundary, or a look-behind that refuses digits and '.'), otherwise it also matches inside a longer literal
+    import re._parser as sp, re._constants as sc
+    for modname in ('mystic._symbolic', 'mystic.symbolic'):
+        m = ctx.model.module(modname)
+        for q, f in sorted(m.funcs.items()):
+            for c in calls_where(f.node, lambda c: isinstance(c.func, ast.Attribute) and c.func.attr == 'sub' and len(c.args) >= 3 and isinstance(c.args[0], ast.Constant)
+                                 and isinstance(c.args[0].value, str) and isinstance(c.args[1], ast.Constant) and isinstance(c.args[1].value, str), include_lambda=True):
+                pat = c.args[0].value
+                if not (any(ch.isdigit() for ch in pat) and any(ch.isdigit() or ch == '.' for ch in c.args[1].value)):
+                    continue       # not a rewrite of numeric text
+                n += 1
+                ctx.touch(f)
+                try:
+                    items = list(sp.parse(pat))
+                except Exception:
+                    raise AnalysisError('%s: cannot parse the pattern %r' % (q, pat))
+                first = items[0] if items else None
+                anchored = False
+                if first is not None:
+                    op, av = first
+                    if op is sc.LITERAL and chr(av) in ' \t(,=+-*/':
+                        anchored = True
+                    elif op is sc.AT and av is sc.AT_BOUNDARY:
+                        anchored = True
+                    elif op is sc.ASSERT_NOT and av[0] == -1:
+                        sub = list(av[1])
+                        if len(sub) == 1 and sub[0][0] is sc.IN:
+                            cls = re.compile('[' + ''.join(('%s-%s' % (chr(x[1][0]), chr(x[1][1])) if x[0] is sc.RANGE else ('\\' + chr(x[1]) if x[0] is sc.LITERAL else ('\\d' if x[0] is sc.CATEGORY and x[1] is sc.CATEGORY_DIGIT else ('\\w' if x[0] is sc.CATEGORY else '')))) for x in sub[0][1]) + ']')
+                            anchored = all(cls.match(ch) for ch in '0123456789')
+                    elif op is sc.ASSERT and av[0] == -1:
+                        anchored = True      # a positive look-behind names what must precede
+                ctx.check(anchored, '%s#sub[%r]' % (q, pat), 'the numeric rewrite %r is anchored on the left' % pat,
+                          'the numeric text rewrite re.sub(%r, %r, ...) is not anchored at a token boundary: it also matches inside a longer literal (10.05 -> 1.05, 100.0 -> 10.0), so the rewritten equation has other coefficients'
+                          % (pat, c.args[1].value), f, c)
+    ctx.need(n >= 1, 'expected numeric text rewrites (the sympy 0.0 work-arounds), found %d' % n)
 
 
 @rule('C12.f', min_instances=2)
